@@ -42,7 +42,8 @@ MethodVerdicts(o) ==
   IF o.status # 200 THEN {}
   ELSE IF ~MethodRef(o) \/ o.overflow > 0 THEN C01(o)
   ELSE C01(o) \cup
-       (IF IsUtility(Method(o)) /\ HasEval(o) THEN (IF Has(o.case, "noC03") /\ o.case.noC03 THEN {} ELSE C03(o)) \cup C04(o) ELSE {}) \cup
+       (IF IsUtility(Method(o)) /\ HasEval(o) THEN (IF Has(o.case, "noC03") /\ o.case.noC03 THEN {} ELSE C03(o))
+                                                \cup (IF Has(o.case, "noC04") /\ o.case.noC04 THEN {} ELSE C04(o)) ELSE {}) \cup
        (IF Method(o) = "majorityHeuristic" /\ HasEval(o) THEN C11(o) ELSE {}) \cup
        (IF Method(o) = "aspectEliminationHeuristic" /\ HasEval(o) THEN C12(o) ELSE {}) \cup
        (IF Method(o) = "satisfactionHeuristic" /\ HasEval(o) THEN C13(o) ELSE {}) \cup
